@@ -1,6 +1,8 @@
 (* C18 - Re-encapsulation with the master key preserves the audience. *)
 From Coq Require Import List NArith Bool Arith Lia.
 From CC Require Import Policy Structure Keys KeysMachine KInv1 KInv5.
+From CC Require Import DisabledProofs KInv1 KInv2 KInv3 KInv4 KInv4b KInv5 KInv6 KInv7 KInv8 KInv9 KInv10.
+From CC Require KeysTheorems.
 Import ListNotations.
 
 (* RR m pk x r : right r has, in the master key, an ACTIVATED secret under which an entry of x was made (with a
@@ -43,3 +45,19 @@ Proof.
   split; vm_compute; [reflexivity|discriminate].
 Qed.
 Print Assumptions C18_pinned_refuted.
+
+(* ---- over all reachable states of the key-management state machine (KInv*.v, gathered in KeysTheorems.v) ---- *)
+Theorem C18_recaps_audience_state_reach :
+  forall (s : state) (j e : nat) (pk : mpk) (x x' : xenc) (u : usk),
+       reach s ->
+       nth_error (st_mpks s) j = Some pk ->
+       nth_error (st_encs s) e = Some x ->
+       st_encs (fst (step fixed s (ORecaps j e))) = st_encs s ++ [x'] ->
+       In u (st_usks s) ->
+       decaps fixed u x' = Some (x_seed x') <->
+       (exists (r : rightk) (pks : secret) (ch : list secret),
+          RR (st_msk s) pk x r /\ rlookup r (p_keys pk) = Some pks /\ In (r, ch) (u_chains u) /\ In pks ch).
+Proof. exact (@KeysTheorems.C18_recaps_audience_state). Qed.
+Print Assumptions C18_recaps_audience_state_reach.
+
+
